@@ -444,4 +444,43 @@ theorem runAll_bound [BEq δ] (c : Cfg α δ) (ops : List Op) (t : Table) (h : t
     · exact hb
     · exact ih _ hb r hr
 
+/-! ### histories with replaced stored hashes; damaged disks -/
+
+theorem runAllS_out [BEq δ] (c : Cfg α δ) (hfix : c.fix = true) (ss : List (Step δ)) (t : Table) :
+    (runAllS c ss t).map (·.1) = freshAllS c ss := by
+  induction ss generalizing c t with
+  | nil => rfl
+  | cons s ss ih =>
+    cases s with
+    | op o =>
+      simp only [runAllS, freshAllS, List.map_cons]
+      rw [ih c hfix, run_out_indep c hfix o t []]
+    | setStored hs =>
+      simp only [runAllS, freshAllS, List.map_cons]
+      rw [ih { c with stored := hs } hfix]
+
+theorem runAllS_bound [BEq δ] (c : Cfg α δ) (ss : List (Step δ)) (t : Table)
+    (h : t.length ≤ c.cap + 1) : ∀ r ∈ runAllS c ss t, r.2 ≤ c.cap + 1 := by
+  induction ss generalizing c t with
+  | nil => intro r hr; simp [runAllS] at hr
+  | cons s ss ih =>
+    intro r hr
+    cases s with
+    | op o =>
+      simp only [runAllS, List.mem_cons] at hr
+      have hb := run_bound c o t h
+      rcases hr with rfl | hr
+      · exact hb
+      · exact ih c _ hb r hr
+    | setStored hs =>
+      simp only [runAllS, List.mem_cons] at hr
+      rcases hr with rfl | hr
+      · exact h
+      · exact ih { c with stored := hs } t h r hr
+
+/-- with a record per call the answer is `Missing.iterItems`, whatever record the object holds,
+    and the object's record is left alone -/
+theorem iterDamaged_perCall (L : Nat) (sizes : List Nat) (disk : List (Option (List α))) (m : MRec) :
+    iterDamaged true L sizes disk m = (Missing.iterItems L sizes disk, m) := rfl
+
 end Torf.Handles
